@@ -23,7 +23,7 @@ RULE = (
 )
 ASSUMPTIONS = ["dependencies are those reported by dask._task_spec after convert_legacy_graph", "sync scheduler for persist/compute"]
 
-EXCLUDE = ("KF-layout-drift-over-shuffle", "KF-setitem-int-with-negstep", "KF-layout-drift-over-window-reduction", "KF-pad-wide", "KF-swv-over-higher-order-diff", "KF-reshape-zero-size")
+EXCLUDE = ("KF-layout-drift-over-shuffle", "KF-setitem-int-with-negstep", "KF-layout-drift-over-window-reduction", "KF-pad-wide", "KF-swv-over-higher-order-diff", "KF-reshape-zero-size", "KF-ufunc-where-0d-out", "KF-roll-flat-trailing-unit-axes", "KF-zero-width-block-reductions")
 
 
 def _grid(name, numblocks):
@@ -161,7 +161,7 @@ def run_shard(spec, seed):
 
 
 def plan(tier):
-    return progrun.plan_cases(tier, 3200, 300000)
+    return progrun.plan_cases(tier, 6400, 300000)
 
 
 REQUIRED_CLASSES = {"quick": ["rootalias", "layers>=2", "persistd", "optimized"], "thorough": ["rootalias", "layers>=2", "persistd", "optimized"]}
